@@ -195,6 +195,21 @@ def ops_for(ty):
             add('Float_' + o, 'P', 'P', f'num_traits::Float::{o}(x)', f'crate.p32e2.P32E2.Float.{o} x', None, 'C17')
         for o in ('atan2', 'hypot', 'powf'):
             add('Float_' + o, 'PP', 'P', f'num_traits::Float::{o}(x, y)', f'crate.p32e2.P32E2.Float.{o} x y', None, 'C17')
+    # ---- C16 totality / profile independence of the remaining implemented public operations (no specification: model-vs-implementation
+    # and panic / timeout / profile-difference detection only); `%=` is also a C17 spelling of rem
+    add('rem_assign', 'PP', 'P', '{ let mut w = x; w %= y; w }', f'(do let r ← crate.{m}.ops.{T}.RemAssign.rem_assign x y; pure r.2)', None, 'C17')
+    for o in ('div_euclid', 'rem_euclid'):
+        add(o, 'PP', 'P', f'x.{o}(y)', f'crate.{m}.math.{T}.{o} x y', None, 'C16')
+    add('asinh', 'P', 'P', 'x.asinh()', f'crate.{m}.math.{T}.asinh x', None, 'C16')
+    add('acosh', 'P', 'P', 'x.acosh()', None, None, 'C16')          # `match` with a guard: not translated (model: none)
+    if ty != 'p8':
+        for o in ('to_degrees', 'to_radians'):
+            add(o, 'P', 'P', f'x.{o}()', f'crate.{m}.{T}.{o} x', None, 'C16')
+    if ty == 'p32':
+        add('tanh', 'P', 'P', 'x.tanh()', 'crate.p32e2.math.P32E2.tanh x', None, 'C16')
+        add('exp10', 'P', 'P', 'x.exp10()', 'crate.p32e2.math.P32E2.exp10 x', None, 'C16')
+        add('sin_cos', 'P', 'u64', '{ let (s_, c_) = x.sin_cos(); ((s_.to_bits() as u64) << 32) | (c_.to_bits() as u64) }',
+            '(do let r ← crate.p32e2.math.P32E2.sin_cos x; pure ((Rs.cast_u32_u64 (Rs.cast_i32_u32 r.1) <<< 32) ||| Rs.cast_u32_u64 (Rs.cast_i32_u32 r.2)))', None, 'C16')
     return R
 
 # ------------------------------------------------------------------------------------------------ generic-width posits
@@ -226,6 +241,17 @@ def px_ops(ty):
     for o, s in (('lt', f'Spec.lt {F} a b'), ('le', f'Spec.le {F} a b'), ('gt', f'Spec.lt {F} b a'), ('ge', f'Spec.le {F} b a'), ('eq', 'a == b')):
         add(o, 'XX', 'bool', f'x.{o}(y)', f'crate.{m}.{T}.{o} n x y', X2(b(s)), 'C10')
     add('cmp', 'XX', 'ord', f'{T}::<N>::cmp(x, y)', f'crate.{m}.{T}.cmp n x y', X2(f'Spec.cmp {F} a b'), 'C10')
+    # operator / derived-trait forms (PartialEq, PartialOrd, Ord of the generic types)
+    pc = f'crate.{m}.{T}.PartialOrd.partial_cmp n x y'
+    add('op_lt', 'XX', 'bool', 'x < y', f'(do let o ← {pc}; pure (o == some 0))', X2(b(f'Spec.lt {F} a b')), 'C10')
+    add('op_le', 'XX', 'bool', 'x <= y', f'(do let o ← {pc}; pure (o == some 0 || o == some 1))', X2(b(f'Spec.le {F} a b')), 'C10')
+    add('op_gt', 'XX', 'bool', 'x > y', f'(do let o ← {pc}; pure (o == some 2))', X2(b(f'Spec.lt {F} b a')), 'C10')
+    add('op_ge', 'XX', 'bool', 'x >= y', f'(do let o ← {pc}; pure (o == some 2 || o == some 1))', X2(b(f'Spec.le {F} b a')), 'C10')
+    add('op_eq', 'XX', 'bool', 'x == y', f'crate.{m}.{T}.PartialEq.eq n x y', X2(b('a == b')), 'C10')
+    add('Ord_cmp', 'XX', 'ord', 'Ord::cmp(&x, &y)', f'crate.{m}.{T}.Ord.cmp n x y', X2(f'Spec.cmp {F} a b'), 'C10')
+    add('partial_cmp', 'XX', 'optord', 'PartialOrd::partial_cmp(&x, &y)', pc, X2(f'Spec.cmp {F} a b'), 'C10')
+    add('Ord_min', 'XX', 'X', 'Ord::min(x, y)', f'(do let o ← crate.{m}.{T}.Ord.cmp n x y; pure (if o == 2 then y else x))', X2(f'Spec.embed n (Spec.pmin {F} a b)'), 'C10')
+    add('Ord_max', 'XX', 'X', 'Ord::max(x, y)', f'(do let o ← crate.{m}.{T}.Ord.cmp n x y; pure (if o == 2 then x else y))', X2(f'Spec.embed n (Spec.pmax {F} a b)'), 'C10')
     add('is_zero', 'X', 'bool', 'x.is_zero()', f'crate.{m}.{T}.is_zero n x', X1(b('a == 0')), 'C10')
     add('is_nar', 'X', 'bool', 'x.is_nar()', f'crate.{m}.{T}.is_nar n x', X1(b(f'a == Spec.nar {F}')), 'C10')
     # conversions (C14)
@@ -275,7 +301,7 @@ def forwarders(ty):
     P = []
     for o in ('add', 'sub', 'mul', 'div'):
         P += [(o, o + '_m'), (o + '_assign', o + '_m')]
-    P += [('neg', 'neg_m'), ('rem', 'rem_m')]
+    P += [('neg', 'neg_m'), ('rem', 'rem_m'), ('rem_assign', 'rem_m')]
     for k in INTS:
         P += [('From_' + k, 'from_' + k), (k + '_From', 'to_' + k)]
     P += [('From_f64', 'from_f64'), ('From_f32', 'from_f32'), ('f64_From', 'to_f64'), ('f32_From', 'to_f32')]
